@@ -75,6 +75,8 @@ type outcome struct {
 	// uploading the rest while the next attempt is already under way (as an HTTP/2 transport
 	// does when the peer answers early)
 	LateBody bool `json:"latebody,omitempty"`
+	// after this attempt another user of the shared client sets this client-level header
+	ClientHdr *[2]string `json:"client_hdr,omitempty"`
 }
 
 type shape struct {
@@ -95,6 +97,7 @@ type shape struct {
 	MPBoundary string      `json:"mpboundary,omitempty"`
 	Chunked    bool        `json:"chunked,omitempty"`   // EnableForceChunkedEncoding (multipart written into a pipe)
 	CloseConn  bool        `json:"closeconn,omitempty"` // EnableCloseConnection: every attempt asks for "Connection: close"
+	Debug      string      `json:"debug,omitempty"`     // debuglog (EnableDebugLog) | dumptrace (dump + trace on for every request)
 	Path       string      `json:"path,omitempty"`      // path of the URL with {name} placeholders (default /p/a)
 	CPParams   [][2]string `json:"cpparams,omitempty"`  // client-level path parameters
 	RPParams   [][2]string `json:"rpparams,omitempty"`  // request-level path parameters
@@ -265,6 +268,7 @@ type runState struct {
 	attempt int        // index of the attempt in flight
 	opened  []*os.File // *os.File upload sources handed to SetFileReader
 	r       *req.Request
+	c       *req.Client
 	probe   *[]int        // non-nil: conditions / hooks only record their id here (see probeFuncs)
 	pending io.ReadCloser // the rest of an earlier attempt's body, still being "uploaded"
 	pendIdx int
@@ -353,6 +357,9 @@ func (rs *runState) roundTrip(q *http.Request) (*http.Response, error) {
 	} else {
 		rs.o.Wires = append(rs.o.Wires, w)
 		rs.drainPending()
+	}
+	if oc.ClientHdr != nil && rs.c != nil {
+		rs.c.SetCommonHeader(oc.ClientHdr[0], oc.ClientHdr[1]) // "another party", between this attempt and the next
 	}
 	switch oc.Kind {
 	case "status":
@@ -444,6 +451,12 @@ func newClient(p *program) *req.Client {
 	if sh.DenyGetPay {
 		c.AllowGetMethodPayload = false
 	}
+	switch sh.Debug {
+	case "debuglog":
+		c.SetLogger(discardLogger{}).EnableDebugLog()
+	case "dumptrace":
+		c.EnableDumpAllTo(io.Discard).EnableTraceAll()
+	}
 	for _, e := range sh.CPParams {
 		c.SetCommonPathParam(e[0], e[1])
 	}
@@ -529,7 +542,7 @@ func applyClientOps(c *req.Client, ops []rop) {
 
 // buildRequest: c.R() with the program's request-level setters, shape and middlewares.
 func buildRequest(c *req.Client, p *program) *runState {
-	rs := &runState{p: p, ctx: newScriptCtx(), attempt: -1}
+	rs := &runState{p: p, ctx: newScriptCtx(), attempt: -1, c: c}
 	rs.ctx.rs = rs
 	sh := &p.Shape
 	r := c.R()
@@ -1345,3 +1358,9 @@ func (b *brokenBody) Read(p []byte) (int, error) {
 }
 
 func (b *brokenBody) Close() error { return nil }
+
+type discardLogger struct{}
+
+func (discardLogger) Errorf(string, ...interface{}) {}
+func (discardLogger) Warnf(string, ...interface{})  {}
+func (discardLogger) Debugf(string, ...interface{}) {}
